@@ -309,6 +309,25 @@ Definition rendered (e : exc) : text := match e_str e with Ok v => v | Exc _ => 
 Lemma render_total e : render e = Ok (rendered e).
 Proof. reflexivity. Qed.
 
+Lemma render_safe_total e : render_safe e = Ok (rendered e).
+Proof. reflexivity. Qed.
+
+(* the translated getStateToCopy, whatever the order of its statements: once the four truncations are known to succeed the
+   whole function reduces to the record of their results *)
+(* (the occurrence in the goal is found by its limit and replaced through an equation that is checked up to conversion:
+   `text` / `list Z` annotations of the generated term may differ from the specification's) *)
+Ltac step_tf E :=
+  match type of E with
+  | trunc_field _ ?l = ?r =>
+    match goal with
+    | |- context [trunc_field ?x l] => let H := fresh "Hs" in assert (H : trunc_field x l = r) by exact E; rewrite H; clear H
+    end
+  end.
+
+Ltac run_get_state E1 E2 E3 E4 :=
+  unfold get_state, get_state_src; cbv zeta; rewrite ?render_safe_total; cbn [sbind];
+  repeat (first [step_tf E1 | step_tf E2 | step_tf E3 | rewrite E4]; cbn [sbind]).
+
 (* C10_failure_fits: no hypothesis on the exception at all *)
 Theorem failure_fits unsafe e :
   exists s, get_state unsafe e = Ok s /\ failure_constraint_ok s = true /\
@@ -317,13 +336,13 @@ Theorem failure_fits unsafe e :
     field_of (escape (elide (if unsafe then e_stack e else default_traceback))) trunc_limit_traceback (s_traceback s) /\
     Forall2 (fun p b => field_of (escape p) trunc_limit_parents b) (e_parents e) (s_parents s).
 Proof.
-  unfold get_state. rewrite render_total.
-  destruct (trunc_field_spec (rendered e) trunc_limit_value ltac:(vm_compute; reflexivity)) as (bv & E1 & L1 & F1). rewrite E1.
-  destruct (trunc_field_spec (e_type e) trunc_limit_type ltac:(vm_compute; reflexivity)) as (bt & E2 & L2 & F2). rewrite E2.
+  destruct (trunc_field_spec (rendered e) trunc_limit_value ltac:(vm_compute; reflexivity)) as (bv & E1 & L1 & F1).
+  destruct (trunc_field_spec (e_type e) trunc_limit_type ltac:(vm_compute; reflexivity)) as (bt & E2 & L2 & F2).
   destruct (trunc_field_spec (elide (if unsafe then e_stack e else default_traceback)) trunc_limit_traceback ltac:(vm_compute; reflexivity))
-    as (btb & E3 & L3 & F3). rewrite E3.
-  destruct (map_res_spec (e_parents e) trunc_limit_parents ltac:(vm_compute; reflexivity)) as (ps & E4 & F4). rewrite E4.
-  eexists. split; [reflexivity|]. cbn [s_type s_value s_traceback s_parents].
+    as (btb & E3 & L3 & F3). unfold elide in E3.
+  destruct (map_res_spec (e_parents e) trunc_limit_parents ltac:(vm_compute; reflexivity)) as (ps & E4 & F4).
+  exists {| s_type := bt; s_value := bv; s_traceback := btb; s_parents := ps |}.
+  split; [run_get_state E1 E2 E3 E4; reflexivity|]. cbn [s_type s_value s_traceback s_parents].
   split; [|split; [exact F1|split; [exact F2|split; [exact F3|]]]].
   - unfold failure_constraint_ok. cbn [s_type s_value s_traceback s_parents].
     rewrite (bytestring_ok_of_le fc_limit_type bt) by (unfold fc_limit_type; unfold trunc_limit_type in L2; lia).
@@ -343,13 +362,13 @@ Qed.
 Theorem failure_fits_any_encoding unsafe e vocab :
   exists s, get_state unsafe e = Ok s /\ failure_constraint_ok_enc vocab s = true.
 Proof.
-  unfold get_state. rewrite render_total.
-  destruct (trunc_field_spec (rendered e) trunc_limit_value ltac:(vm_compute; reflexivity)) as (bv & E1 & L1 & _). rewrite E1.
-  destruct (trunc_field_spec (e_type e) trunc_limit_type ltac:(vm_compute; reflexivity)) as (bt & E2 & L2 & _). rewrite E2.
+  destruct (trunc_field_spec (rendered e) trunc_limit_value ltac:(vm_compute; reflexivity)) as (bv & E1 & L1 & _).
+  destruct (trunc_field_spec (e_type e) trunc_limit_type ltac:(vm_compute; reflexivity)) as (bt & E2 & L2 & _).
   destruct (trunc_field_spec (elide (if unsafe then e_stack e else default_traceback)) trunc_limit_traceback ltac:(vm_compute; reflexivity))
-    as (btb & E3 & L3 & _). rewrite E3.
-  destruct (map_res_spec (e_parents e) trunc_limit_parents ltac:(vm_compute; reflexivity)) as (ps & E4 & F4). rewrite E4.
-  eexists. split; [reflexivity|]. unfold failure_constraint_ok_enc. cbn [s_type s_value s_traceback s_parents].
+    as (btb & E3 & L3 & _). unfold elide in E3.
+  destruct (map_res_spec (e_parents e) trunc_limit_parents ltac:(vm_compute; reflexivity)) as (ps & E4 & F4).
+  exists {| s_type := bt; s_value := bv; s_traceback := btb; s_parents := ps |}.
+  split; [run_get_state E1 E2 E3 E4; reflexivity|]. unfold failure_constraint_ok_enc. cbn [s_type s_value s_traceback s_parents].
   rewrite (bytestring_ok_enc_of_le vocab fc_limit_type bt) by (unfold fc_limit_type; unfold trunc_limit_type in L2; lia).
   rewrite (bytestring_ok_enc_of_le vocab fc_limit_value bv) by (unfold fc_limit_value; unfold trunc_limit_value in L1; lia).
   rewrite (bytestring_ok_enc_of_le vocab fc_limit_traceback btb) by (unfold fc_limit_traceback; unfold trunc_limit_traceback in L3; lia).
@@ -475,19 +494,22 @@ Theorem ancestry_prefix_closed unsafe e s k : get_state unsafe e = Ok s ->
              s_parents s' = firstn k (s_parents s) /\ s_type s' = s_type s /\ s_value s' = s_value s /\
              s_traceback s' = s_traceback s.
 Proof.
-  unfold get_state, render. cbn [e_type e_str e_fallback e_stack e_parents]. intros G.
-  destruct value_rendering_is_safe.
-  - destruct (trunc_field _ trunc_limit_value) as [bv|]; [|discriminate].
-    destruct (trunc_field (e_type e) trunc_limit_type) as [bt|]; [|discriminate].
-    destruct (trunc_field (elide _) trunc_limit_traceback) as [btb|]; [|discriminate].
-    destruct (map_res _ (e_parents e)) as [ps|] eqn:EP; [|discriminate].
-    rewrite (map_res_firstn _ _ _ k EP). inversion G; subst. eexists. split; [reflexivity|]. cbn. auto.
-  - destruct (e_str e) as [v|]; [|discriminate].
-    destruct (trunc_field _ trunc_limit_value) as [bv|]; [|discriminate].
-    destruct (trunc_field (e_type e) trunc_limit_type) as [bt|]; [|discriminate].
-    destruct (trunc_field (elide _) trunc_limit_traceback) as [btb|]; [|discriminate].
-    destruct (map_res _ (e_parents e)) as [ps|] eqn:EP; [|discriminate].
-    rewrite (map_res_firstn _ _ _ k EP). inversion G; subst. eexists. split; [reflexivity|]. cbn. auto.
+  intros G.
+  destruct (trunc_field_spec (rendered e) trunc_limit_value ltac:(vm_compute; reflexivity)) as (bv & E1 & _).
+  destruct (trunc_field_spec (e_type e) trunc_limit_type ltac:(vm_compute; reflexivity)) as (bt & E2 & _).
+  destruct (trunc_field_spec (elide (if unsafe then e_stack e else default_traceback)) trunc_limit_traceback ltac:(vm_compute; reflexivity))
+    as (btb & E3 & _). unfold elide in E3.
+  destruct (map_res_spec (e_parents e) trunc_limit_parents ltac:(vm_compute; reflexivity)) as (ps & E4 & _).
+  assert (G' : get_state unsafe e = Ok {| s_type := bt; s_value := bv; s_traceback := btb; s_parents := ps |})
+    by (run_get_state E1 E2 E3 E4; reflexivity).
+  rewrite G in G'. inversion G'; subst s. clear G G'.
+  pose proof (map_res_firstn _ _ _ k E4) as E4'.
+  exists {| s_type := bt; s_value := bv; s_traceback := btb; s_parents := firstn k ps |}.
+  split; [|cbn; auto].
+  unfold get_state, get_state_src; cbv zeta; rewrite ?render_safe_total; cbn [sbind e_type e_str e_fallback e_stack e_parents].
+  change (rendered {| e_type := e_type e; e_str := e_str e; e_fallback := e_fallback e; e_stack := e_stack e;
+                      e_parents := firstn k (e_parents e) |}) with (rendered e).
+  repeat (first [step_tf E1 | step_tf E2 | step_tf E3 | rewrite E4']; cbn [sbind]). reflexivity.
 Qed.
 
 (* "or is uniformly wrapped when the Tub is configured to hide remote exception types": with types hidden, what the caller
